@@ -1,6 +1,7 @@
 (* C20 - gauss_quant (Odeh & Evans), hertz_to_angular, angular_to_hertz: the
    definitions are those of gen/WinHelp.v, regenerated from util.py on every run. *)
 From Coq Require Import Reals ZArith Lia Lra.
+Set Warnings "-ambiguous-paths".
 From Coquelicot Require Import Coquelicot.
 From Interval Require Import Tactic.
 From Verif Require Import lib.C20_Numpy gen.WinHelp.
